@@ -24,7 +24,8 @@ for _pid, _t in [("C01", "edit script accounting (every child exactly once, list
                   ("C03", "cost = sum of parts in the diff tree, the flat edit list and the refined top-level edit"),
                   ("C04", "monotone, sound, converging bounds (passive and active monitor around every Bounded class)"),
                   ("C02", "total cost == 0 <=> documents equal as data <=> main()'s exit-status expression (AST slice) is False <=> nothing marked; "
-                          "plus z3 validity queries `summary of the real levenshtein_distance == textbook DP` and `== 0 <=> equal` per length shape"),
+                          "plus z3 validity queries `summary of the real levenshtein_distance == textbook DP` and `== 0 <=> equal` per length shape; "
+                          "CrossHair re-checks the kernel as an independent second engine (symbolic str, length <= 3)"),
                   ("C05", "2-safety by self-composition over call histories: the same symbolic documents are refined by the TreeNode.diff loop and by "
                           "every bounded prefix of public edit operations (on the top-level or a nested edit) followed by that loop, quiet on/off: no "
                           "exception, equal final cost, equal script"),
